@@ -231,7 +231,12 @@ func c08RunConcHook(w *scWorld, bs []*scBH, threads []c08Thread, sched string) (
 			ctl.cstep++
 		}
 		trace = append(trace, fmt.Sprintf("%d:%s", t, parked[t]))
-		ctl.resume[t] <- struct{}{}
+		select {
+		case ctl.resume[t] <- struct{}{}:
+		case <-time.After(10 * time.Second):
+			errs = fmt.Sprintf("thread %d was taken to be parked at %s but does not accept its release (parked: %v)", t, parked[t], parked)
+			return false
+		}
 		if !waitFor(t) {
 			return false
 		}
